@@ -533,7 +533,8 @@ Section Paths.
      names the start had *)
   Theorem names_survive_iff_carried es t c t' c' :
     sem_path es (t, c) = Some (t', c') ->
-    (all_carry es t = true -> c_names c' = c_names c) /    (all_carry es t = false ->
+    (all_carry es t = true -> c_names c' = c_names c) /\
+    (all_carry es t = false ->
      forall c2 t2 c2', sem_path es (t, c2) = Some (t2, c2') -> c_names c2' = c_names c').
   Proof.
     intro H. apply sem_path_nsem in H. split.
